@@ -56,7 +56,8 @@ def rand_props(rng, d):
                                       "sub/INNER.PNG", "sub/Inner.Png", "sub/inner song.OGG", "./sub/INNER.png", "sub/../sub/Inner.png"])
         elif names:
             n = rng.choice(names)
-            props[kind] = rng.choice(["./" + n, "sub/../" + n, "../song/" + n])
+            props[kind] = rng.choice(["./" + n, "sub/../" + n, "../song/" + n,
+                                      n + "/x.png", n + "/old/x.png", n + "/a/b/" + n, "song.sm/old/banner.png"])      # a "sub-directory" that is really a file: missing all the same
     return props
 
 
